@@ -480,7 +480,7 @@ def u_init_render(ctx):
     return obs
 
 
-@unit("C10", "_renderable:Renderable.render/__str__")
+@unit(("C10", "C05"), "_renderable:Renderable.render/__str__")
 def u_render_str(ctx):
     """render() and __str__() go through _init_render_ with the default finalize=True"""
     obs = []
